@@ -8,7 +8,7 @@ from props import c18
 
 def run(res, args):
     res.rule = ("batches of 3-12 frames (well-formed MSM4/MSM7 from the specification encoder, 1005/1006, random typed frames, "
-                "malformed MSM frames, non-RTCM data): each frame is decoded and displayed first by a fresh handler, then after "
+                "malformed MSM frames, non-RTCM data; a quarter of the batches contain 2-5 messages of one constellation stamped within +-10 s / 30 s / 60 s of each other in arbitrary order): each frame is decoded and displayed first by a fresh handler, then after "
                 "the other frames by one handler (twice over), then by 2-8 handlers in parallel goroutines in different orders, "
                 "then as two copies of one message value of which one consumer displays and scribbles on its copy - all under "
                 "the race detector; decoded fields, text without the time lines and raw bytes must equal the fresh result; "
@@ -28,16 +28,44 @@ def run(res, args):
     nb = 150 if res.tier == "quick" else 5000
     # a pool of well-formed MSM frames from the specification encoder
     specs = [msmgen.abstract(rng)[0] for _ in range(300 if res.tier == "quick" else 2000)]
+    # clusters: the same constellation's message stamped a little earlier / later / the same (observations that
+    # arrive late, repeated or out of order by up to some seconds, and across the end of the week): a valid frame
+    # must read the same wherever it stands in such a sequence
+    import re
+    nclusters = 40 if res.tier == "quick" else 600
+    cluster_of = {}
+    for ci in range(nclusters):
+        base = specs[ci % len(specs)]
+        ty = int(re.search(r"type=(\d+)", base).group(1))
+        ts0 = int(re.search(r"ts=(\d+)", base).group(1))
+        for _ in range(rng.randint(2, 5)):
+            d = rng.choice([0, 1, -1, 1000, -1000, 3000, -3000, 9999, -9999, 10000, -10001, 30000, -60000, rng.randint(-20000, 20000)])
+            if ty in (1084, 1087):
+                day, ms = ts0 >> 27, ts0 & ((1 << 27) - 1)
+                ts = (day << 27) | min(86399999, max(0, ms + d))
+            else:
+                ts = (ts0 + d) % 604800000
+            cluster_of[len(specs)] = ci
+            specs.append(re.sub(r"ts=\d+", "ts=%d" % ts, base))
     lines, e = common.run_lines(common.MODEL_BIN, "msmspec", ["msmspec " + t for t in specs])
-    pool = []
-    for line in lines or []:
+    pool, clusters = [], {}
+    for i, line in enumerate(lines or []):
         parts = dict(p.split("=", 1) for p in line.split(" ", 3))
         if parts.get("wf") == "1":
-            pool.append(bytes.fromhex(parts["frame"]))
+            if i in cluster_of:
+                clusters.setdefault(cluster_of[i], []).append(bytes.fromhex(parts["frame"]))
+            else:
+                pool.append(bytes.fromhex(parts["frame"]))
+    clusters = [c for c in clusters.values() if len(c) >= 2]
     cases, frames_all = [], []
     for _ in range(nb):
         frames = []
-        for _ in range(rng.randint(3, 12)):
+        if clusters and rng.random() < 0.25:
+            cl = list(rng.choice(clusters))
+            rng.shuffle(cl)
+            frames.extend(cl)
+            res.count("batch containing one constellation's messages stamped within seconds of each other, in any order")
+        for _ in range(rng.randint(3, 12) - len(frames) if len(frames) < 3 else rng.randint(0, 4)):
             r = rng.random()
             if r < 0.4 and pool:
                 frames.append(rng.choice(pool))
